@@ -323,7 +323,9 @@ def cache_obs(t: pdt.Table) -> dict:
     c = t._cache
     api = None
     try:
-        api = dict(iter=[col.name for col in t], len=len(t), dir=list(dir(t)), contains=all((n in t) for n in c.name_to_uuid))
+        api = dict(iter=[col.name for col in t], len=len(t), dir=list(dir(t)), contains=all((n in t) for n in c.name_to_uuid),
+                   # `col in t` for a column *reference*: exactly the selected columns (a hidden column is in scope, not in the table)
+                   contains_refs=all((col in t) == (u in c.uuid_to_name) for u, col in c.cols.items()))
     except Exception as e:  # noqa: BLE001
         api = dict(error=type(e).__name__)
     fa = None
